@@ -30,11 +30,13 @@ type Shared struct {
 	EllFill map[string]interface{}
 }
 
-// NewShared builds a fresh set of shared objects.
+// NewShared builds a fresh set of shared objects. It must not call any observer
+// (String, ToBytes, Variables, ...) on an object it shares: the first use of every
+// object has to be able to happen concurrently (lazily built state inside objects).
 func NewShared() *Shared {
 	s := &Shared{}
 	s.Tmpl = ast.NewListNode(
-		ast.NewListNode(ast.NewUintNode(1, "a", 7), "b", "...[0]"),
+		ast.NewListNode(ast.NewUintNode(1, "a"), "b", "...[0]"),
 		ast.NewASCIINodeVariable("c", 0, 8),
 		"...[1]",
 		ast.NewIntNode(2, 5, "d"),
@@ -43,11 +45,14 @@ func NewShared() *Shared {
 	s.AVar = ast.NewASCIINodeVariable("s", 1, 5)
 	s.Child = ast.NewListNode(ast.NewBinaryNode(1, 2), ast.NewFloatNode(8, 0.5))
 	s.Incompl = ast.NewDataMessage("tmpl", 6, 11, 2, "H<-E", s.Tmpl)
+	mk := func() *ast.DataMessage {
+		return ast.NewHSMSDataMessage("done", 1, 13, 1, "H->E", ast.NewListNode(ast.NewListNode(ast.NewBinaryNode(1, 2), ast.NewFloatNode(8, 0.5)), ast.NewASCIINode("MDLN")), 258, []byte{1, 2, 3, 4})
+	}
 	s.Compl = ast.NewHSMSDataMessage("done", 1, 13, 1, "H->E", ast.NewListNode(s.Child, ast.NewASCIINode("MDLN")), 258, []byte{1, 2, 3, 4})
 	s.Ctl = ast.NewHSMSMessageSelectReq(7, []byte{9, 8, 7, 6})
-	s.Text = "S1F13 W H->E\n<L <A x> <B 1>>\n."
+	s.Text = "S1F13 W\n<L <A x> <B 1>>\n."
 	s.Text2 = "S6F11 [W] n // c\n<L <U4 1 v> <A[..4] w> ...>\n."
-	s.Bytes = s.Compl.ToBytes()
+	s.Bytes = mk().ToBytes() // the bytes of an equal twin: s.Compl itself stays untouched
 	s.Fill = map[string]interface{}{"a": 9, "c": "text", "d": -4, "x": 1, "y": 2, "s": "abc", "b": ast.NewBooleanNode(true)}
 	s.EllFill = map[string]interface{}{"...[0]": 1, "...[1]": 1}
 	return s
